@@ -894,6 +894,10 @@ func TestProp(t *testing.T) {
 		h.runEntry(e)
 		h.publish()
 	}
+	// phase C: sequences of valid replies that must come to an end (referral chains)
+	if !h.skipping {
+		referralChains(h)
+	}
 	if h.skipping {
 		r.Inconclusive("restart point " + h.skipKey + " not found in the case order")
 	}
